@@ -61,7 +61,9 @@ RULE = ("Hypothesis-generated cases: an option table of 2..8 options over every 
 ASSUMPTIONS = [
     "GETCONF answers are the ones Tor produces: Boolean 0/1, Boolean+Auto 0/1/auto, integers in decimal, Float "
     "as %f, String/Filename bare when NULL, LineList and port options one line per value and bare when empty, "
-    "CommaList/RouterList one comma-joined line that is 'Name=' when empty; only those types are ever bare",
+    "CommaList/RouterList one comma-joined line, 'Name=' when empty or bare when unset (a NULL RouterList; "
+    "control-spec allows the bare form for any option at its default), in which case the default is one "
+    "config/defaults line of comma-joined items; the other types are never bare",
     "config/defaults lines are 'Name value' as in control-spec DefaultsOutput and the repo's fixtures (unquoted)",
     "an empty CommaList/RouterList may read as [] or ['']",
     "a scalar option Tor reports unset for which no default is known may read as None, '' or the documented "
@@ -113,7 +115,7 @@ def _new_value(o):
     if typ == "PortLines":
         return st.one_of(cm.list_lines(typ, 1, 1), cm.list_lines(typ, 2, 4))
     if typ in ("CommaList", "RouterList"):
-        return cm.list_lines(typ, 0, 4)
+        return st.one_of(cm.list_lines(typ, 0, 4), cm.list_lines(typ, 0, 4), st.none())
     return cm.scalar_line(typ).map(lambda s: [s])
 
 
@@ -166,7 +168,7 @@ def cases(draw, max_steps=9):
     lists = [o for o in opts if simconf.is_list_type(o["type"])]
     spell = st.sampled_from([0, 0, 1, 2, 3])
     multis = [o for o in opts if o["type"] in ("LineList", "PortLines")]
-    unsettable = [o for o in opts if o["type"] in ("String", "Filename", "LineList")]
+    unsettable = [o for o in opts if o["type"] in ("String", "Filename", "LineList", "CommaList", "RouterList")]
 
     @st.composite
     def event(draw, pool):
@@ -420,7 +422,7 @@ class _Run(object):
         names = []
         for name, value in e["changes"]:
             m = self.opts[name]
-            if value is None and m.typ not in ("String", "Filename", "LineList"):
+            if value is None and m.typ not in simconf.CAN_BE_UNSET[:3] + simconf.CAN_BE_UNSET[4:]:
                 raise HarnessError("case unsets %s (%s) by event" % (name, m.typ))
             if self.sim.get(name) == value:
                 continue
@@ -506,7 +508,7 @@ class _Run(object):
         infos = {}
         for name, value in s["changes"]:
             m = self.opts[name]
-            if value is None and m.typ not in ("String", "Filename", "LineList"):
+            if value is None and m.typ not in simconf.CAN_BE_UNSET[:3] + simconf.CAN_BE_UNSET[4:]:
                 raise HarnessError("case unsets %s (%s) by event" % (name, m.typ))
             if self.sim.get(name) == value:
                 self.res.label("event-change-is-noop")
@@ -590,7 +592,7 @@ class _Run(object):
             names = []
             for name, value in changes:
                 m = self.opts[name]
-                if value is None and m.typ not in ("String", "Filename", "LineList"):
+                if value is None and m.typ not in simconf.CAN_BE_UNSET[:3] + simconf.CAN_BE_UNSET[4:]:
                     raise HarnessError("case unsets %s (%s) by event" % (name, m.typ))
                 if self.sim.get(name) == value:
                     continue
@@ -1059,6 +1061,18 @@ def _fixed_cases():
                              ev(("Nickname", ["theirs"])), rd("Nickname"), ev(("Nickname", None)), rd("Nickname"),
                              {"op": "edit", "o": "NodeFamily", "v": "a,b", "case": 0}, {"op": "save", "accept": False},
                              ev(("NodeFamily", ["c,d", "e,f"])), rd("NodeFamily"), {"op": "save", "accept": True}])
+    # comma-list options another controller resets: announced without a value -> the (comma-joined) default, parsed
+    t6 = [O("LongLivedPorts", "CommaList", value=["80"], default=["21,22,706,1863"]),
+          O("ExcludeNodes", "RouterList", default=["{us},$" + "A" * 40 + ",nick1"]),
+          O("FirewallPorts", "CommaList"), O("Log", "LineList", value=["notice stdout"], default=["warn stdout"])]
+    for echo in (False, True):
+        for dflt in (True, False):
+            b = dict(base, echo=echo, defaults=dflt, opts=t6)
+            yield dict(b, steps=[rd("ExcludeNodes"), ev(("LongLivedPorts", None)), rd("LongLivedPorts"),
+                                 {"op": "edit_save", "o": "LongLivedPorts", "v": "8080", "case": 1},
+                                 ev(("ExcludeNodes", ["{de}"])), ev(("ExcludeNodes", None), ("Log", None)),
+                                 {"op": "edit_save", "o": "ExcludeNodes", "v": "{fr}", "case": 0},
+                                 ev(("FirewallPorts", ["80,443"])), ev(("FirewallPorts", None)), rd("FirewallPorts")])
     # a save() whose SETCONF is still unanswered when another controller's change of the same option is announced
     t5 = [O("Log", "LineList", value=["notice stdout"]), O("NumCPUs", "Integer", value=["2"]),
           O("SocksPort", "PortLines", value=["9050"]), O("Nickname", "String", value=["n"]),
@@ -1109,6 +1123,12 @@ def run(ctx):
 
 
 MUTANTS = [
+    # an option announced without a value: the default goes through the declared type's parser
+    ("event-unset-default-not-parsed", "txtorcon/torconfig.py",
+     "                        v = self.__dict__['_defaults'].get(real_name, [])\n                    if not isinstance(v, list):",
+     "                        v = self.__dict__['_defaults'].get(real_name, [])\n                    elif not isinstance(v, list):"),
+    ("bootstrap-comma-default-not-parsed", "txtorcon/torconfig.py",
+     "                        parsed = self.parsers[rn].parse(parsed)", "                        parsed = [parsed]"),
     # CONF_CHANGED while our own SETCONF is unanswered
     ("refused-value-written-back-into-view", "txtorcon/torconfig.py",
      "                self.unsaved.setdefault(k, v)\n",
